@@ -134,7 +134,7 @@ var nastyStrings = []string{"say \"hi\"", "back\\slash", "tab\there", "new\nline
 var plainNames = []string{"a", "b", "pet", "Pet", "tag", "item", "n1", "id2", "value", "data"}
 var nastyNames = []string{"bell\u0007x", "del\u007f", "\U000e0001tag", "a\"b", "a\\b", "a\nb", "tab\tname", "é", "名前", "^a\\d+$", "[a-z]+", "a/b", "a~b", "a%20b", "a b", "{x}", "a#b", "a?b", "<x>", "a&b", " ", "x-notext", "X-upper", "$dollar", "0", "00", "-1", "a.b", "a\":1,\"b"}
 var extraKeywords = []string{"unknownKeyword", "custom", "$comment", "contentMediaType", "const", "if", "then", "meta-data", "vendor", "zzz"}
-var extNames = []string{"x-a", "x-vendor", "x-go-name", "x-nullable", "x-UPPER", "x-", "x-with space", "x-ünï", "x-a\"q", "x-order2"}
+var extNames = []string{"x-a", "x-A", "x-Vendor", "x-vendor", "x-go-name", "x-nullable", "x-UPPER", "x-", "x-with space", "x-ünï", "x-a\"q", "x-order2"}
 var refPool = []string{"#/definitions/a", "#/definitions/b", "other.json#/definitions/c", "sub/other.json", "http://example.com/s.json#/definitions/d",
 	"#/parameters/p", "#/responses/r", "#/definitions/a~1b", "#/definitions/a%20b", "../up.json#/x",
 	// a control character and a blank, in the form net/url prints them (raw ones are C13's subject)
